@@ -51,7 +51,82 @@ def gen_cases(tier, seed):
         elif mode == "stale":
             d["sW"] = r.choice([None, 1, 2, 3, 8])
         out.append(d)
+    for i in range(max(6, n // 100)):
+        # more than 32 workers asked for explicitly (32 is the cap of the DEFAULT worker count only) and more than that many calls ready
+        s = env.seed_for(seed, ID, tier, "wide", i)
+        r = random.Random(env.seed_for(s, "descriptor"))
+        W = r.choice([33, 36, 40, 48])
+        out.append({"seed": s, "n": W + r.randint(2, 12), "W": W, "sched": r.choice(["default", "random"]), "mode": "wave", "wide": True, "delays": "none",
+                    "policy": r.choice(["all", "one", "subset"]), "cfg": {"out": "all"}})
+    for i in range(max(20, n // 25)):
+        s = env.seed_for(seed, ID, tier, "retry_shared", i)
+        r = random.Random(env.seed_for(s, "descriptor"))
+        out.append({"seed": s, "mode": "retry_shared", "n": r.randint(2, 7), "W": r.choice([1, 2, 4]), "sched": r.choice(["default", "random"]), "attempts": r.choice([2, 3, 4])})
     return out
+
+
+def run_retry_shared(desc):
+    """Several symbolic calls share ONE Python function; the retry decorator keeps its attempt budget in the wrapper it returns (per-wrapper
+    state, as e.g. a decorator with a local counter does). `retry` is documented as applied to each call: every call must get its own
+    n attempts, stop at its first success, and an eventual success must count for its dependents."""
+    import collections
+
+    import uberjob
+
+    rng = random.Random(desc["seed"])
+    n_att = desc["attempts"]
+    m = desc["n"]
+    flaky = {t: rng.randint(0, n_att - 1) for t in range(m)}  # fails its first j attempts, j < n: every call eventually succeeds
+    attempts = collections.Counter()
+    wraps = []
+
+    def shared(tag, *deps):
+        attempts[tag] += 1
+        if attempts[tag] <= flaky[tag]:
+            raise ValueError(f"transient failure of call {tag}, attempt {attempts[tag]}")
+        return tag
+
+    def stateful_retry(f):
+        state = {"left": n_att}
+        wraps.append(f)
+
+        def wrapper(*a, **k):
+            while True:
+                state["left"] -= 1
+                try:
+                    return f(*a, **k)
+                except Exception:
+                    if state["left"] <= 0:
+                        raise
+
+        return wrapper
+
+    plan = uberjob.Plan()
+    nodes = []
+    for t in range(m):
+        deps = rng.sample(nodes, min(len(nodes), rng.choice([0, 1, 1, 2])))
+        nodes.append(plan.call(shared, t, *deps))
+    exc = res = None
+    try:
+        res = uberjob.run(plan, output=nodes, retry=stateful_retry, max_workers=desc["W"], scheduler=desc["sched"], progress=None)
+    except BaseException as e:
+        exc = e
+    bad = None
+    if exc is not None:
+        bad = (f"every call succeeds within its {n_att} attempts (fails first {dict(flaky)}), yet run raised {exc!r} (cause {exc.__cause__!r}); "
+               f"attempts made {dict(attempts)}; the retry decorator was applied {len(wraps)} time(s) for {m} calls")
+    else:
+        for t in range(m):
+            if attempts[t] != flaky[t] + 1:
+                bad = f"call {t} was attempted {attempts[t]} times, expected {flaky[t] + 1} (stop at the first success, at most {n_att})"
+                break
+        if bad is None and res != list(range(m)):
+            bad = f"run returned {res!r}"
+    r_ = {"status": "ok", "counters": {"retry_shared_runs": 1, "custom_retry_wraps": len(wraps)}, "nontrivial": any(flaky.values()),
+          "sig": f"retry_shared|{m}|{n_att}|{sorted(flaky.items())}|{desc['W']}"}
+    if bad:
+        r_.update(status="violation", detail=f"[one function shared by {m} calls, retry decorator with per-wrapper state] {bad}", mechanism="limits-retry", witness={"flaky": flaky})
+    return r_
 
 
 def custom_retry(n, log):
@@ -74,6 +149,8 @@ def custom_retry(n, log):
 
 def run_case(desc):
     mode = desc["mode"]
+    if mode == "retry_shared":
+        return run_retry_shared(desc)
     if mode == "wave":
         return run_wave(desc)
     if mode == "stale":
@@ -128,7 +205,14 @@ def run_wave(desc):
 
     from vmon import ir as irmod
 
-    irr = irmod.gen_ir(random.Random(desc["seed"]), desc["n"], family=desc.get("family"), rich=True, cfg=desc.get("cfg"))
+    if desc.get("wide"):
+        irr = irmod.IR()
+        first = [irr.add("call", fname=f"fn{i % 3}") for i in range(desc["n"])]
+        joins = [irr.add("call", fname="join", args=[irmod.ref(c.id) for c in first[j::4][:10]]) for j in range(4)]
+        irr.output = irmod.X("list", [irmod.ref(c.id) for c in first + joins])
+        irr.meta["family"] = "wide"
+    else:
+        irr = irmod.gen_ir(random.Random(desc["seed"]), desc["n"], family=desc.get("family"), rich=True, cfg=desc.get("cfg"))
     calls = set(irr.harness_calls())
     preds = irr.preds()
     needed = irr.needed() & calls
